@@ -1746,8 +1746,11 @@ class rx:
             'kwargs': {},
             'reverse': False
         }
-        self._method = None
-        return self._clone(operation)
+        # Record the access on a copy: this expression keeps standing for
+        # the attribute and can still be read or derived from again.
+        base = self._clone(copy=True)
+        base._method = None
+        return base._clone(operation)
 
     def __getattribute__(self, name):
         self_dict = super().__getattribute__('__dict__')
